@@ -44,7 +44,10 @@ def cases(tier, seed):
             out.append(dict(c, k='print_trace', sim=s, K=3))
     for s in ('sim', 'fast'):
         for w in (1, 3):
-            out.append({'k': 'rtl_assert', 'sim': s, 'w': w, 'K': 3})
+            for exc in ('custom', 'pyrtl', 'internal', 'value', 'lookup', 'runtime'):
+                if w == 3 and exc not in ('custom', 'pyrtl'):
+                    continue
+                out.append({'k': 'rtl_assert', 'sim': s, 'w': w, 'K': 3, 'exc': exc})
     for s in SIMS:
         for w in (1, 4, 8, 64, 70):
             out.append({'k': 'illegal', 'sim': s, 'w': w})
@@ -355,7 +358,12 @@ def do_rtl_assert(case, ob, site):
 
     class MyErr(Exception):
         pass
-    exp = MyErr('assertion failed')
+
+    class MyPyrtlErr(pyrtl.PyrtlError):
+        pass
+    # any Exception instance other than a KeyError is a legal second argument (documented)
+    exp = {'custom': MyErr, 'pyrtl': pyrtl.PyrtlError, 'internal': pyrtl.PyrtlInternalError, 'value': ValueError,
+           'lookup': IndexError, 'runtime': MyPyrtlErr}[case.get('exc', 'custom')]('assertion failed')
     pyrtl.rtl_assert(a != ((1 << w) - 1), exp)
     block = pyrtl.working_block()
     v = Vars()
